@@ -146,6 +146,23 @@ CHECKS = {
               "predicates evaluated by the harness"),
         technique="TLA+ exact-rational layer-sweep model checked by TLC; replay of all cases in every direction form; numeric observations",
         design="9/C14"),
+    "C09": dict(
+        text=("Filt.tla gives FilterConv operationally (padded index array built axis by axis: wrapped sides first, then the "
+              "upper edge, then the lower edge; constant sides become overrides applied in x, y, z order; valid-mode "
+              "convolution) and declaratively (extend the field beyond each face by its rule along x, then y, then z; "
+              "y(c) = sum_o w(P-o) X(c+o)). TLC checks PadAxisSound for every mode pair, and on every 2D grid {1..4}x{1..3} "
+              "with five integer kernels and all 4^4 boundary-mode combinations (3D: 2-3 grids, two 3x3x3 kernels, a seeded "
+              "sample / all of 4^6) that operational = declarative on the zero field and every unit field (complete, the map "
+              "is affine), that constants are preserved and outputs are convex combinations for non-negative kernels without "
+              "constant padding, and that symmetric padding with a mirror-symmetric kernel preserves the total. FilterConv is "
+              "compared exactly with TLC's columns; DensityFilter (incl. nonpadding) and FilterConv(radius, relative/absolute "
+              "units, non-unit element sizes) are compared on TLC's exact support structure (pairs with d^2 < r^2 and rational "
+              "squared distances) for ten radii from below one element to larger than the domain."),
+        note=(TLC_BASE + "; kernel half-width <= elements per axis; cone weights max(0, r-d) are irrational in general and "
+              "are evaluated by the harness on TLC's structure [R*]; FilterConv(radius) is pinned by proportionality to the "
+              "cone sums plus unit kernel sum, not by a particular truncation of the kernel window"),
+        technique="TLA+ padding/convolution model checked by TLC over all boundary-mode combinations; exact column replay; structure-from-spec for cone weights",
+        design="9/C09"),
 }
 
 
